@@ -551,7 +551,13 @@ func eval(c Case, probe bool) evid.Verdict {
 	ver := p.version
 	// (a) parse equality with the independent reader
 	if c.File != nil {
-		if err := kt.Unmarshal(p.file); err != nil {
+		in := append([]byte{}, p.file...)
+		err := kt.Unmarshal(in)
+		// the buffer handed to Unmarshal is the caller's: it is overwritten at once, and nothing parsed may change with it
+		for k := range in {
+			in[k] ^= 0xff
+		}
+		if err != nil {
 			msg := err.Error()
 			if len(msg) > 200 {
 				msg = msg[:200] + "..."
